@@ -35,8 +35,8 @@ extensions = txt, csv, tsv, dat, tab, psv, ssv
 csvpath = {csvpath_policy}
 csvpaths = {csvpaths_policy}
 [logging]
-csvpath = error
-csvpaths = error
+csvpath = {log_level}
+csvpaths = {log_level}
 log_file = {log_file}
 log_files_to_keep = 1
 log_file_size = 2000000
@@ -57,7 +57,8 @@ on_unmatched_file_fingerprints = halt
 
 
 class World:
-    def __init__(self, *, csvpath_policy=("collect", "print"), csvpaths_policy=("raise", "collect"), keep=False):
+    def __init__(self, *, csvpath_policy=("collect", "print"), csvpaths_policy=("raise", "collect"), keep=False, log_level="error"):
+        self.log_level = log_level
         self.csvpath_policy = list(csvpath_policy)
         self.csvpaths_policy = list(csvpaths_policy)
         self.root = None
@@ -97,6 +98,7 @@ class World:
                     csvpath_policy=", ".join(self.csvpath_policy),
                     csvpaths_policy=", ".join(self.csvpaths_policy),
                     log_file=log_file,
+                    log_level=self.log_level,
                 )
             )
 
